@@ -29,6 +29,15 @@ fn gen_named_lp(rng: &mut ChaCha8Rng) -> LmSpec {
             r.name = format!("n{i}");
         }
     }
+    // names are free-form: underscores in front, in the middle, doubled
+    if rng.gen_bool(0.15) {
+        let odd = ["__cap", "_lim", "__r__2", "a__b", "row__", "___"];
+        for r in spec.rows.iter_mut() {
+            if !r.name.is_empty() && rng.gen_bool(0.5) {
+                r.name = format!("{}{}", odd[rng.gen_range(0..odd.len())], r.name);
+            }
+        }
+    }
     // one model in ten gives three or more rows the same name (the compiler renames them name, name__2, ...)
     if spec.rows.len() >= 3 && rng.gen_bool(0.1) {
         let k = rng.gen_range(3..=spec.rows.len());
